@@ -2,6 +2,7 @@
 package props
 
 import (
+	"verif/dial"
 	"verif/eng"
 	"verif/meta"
 	"verif/wire"
@@ -25,6 +26,7 @@ var runners = map[string]eng.Runner{
 	"C16": wire.C16,
 	"C17": wire.C17,
 	"C18": wire.C18,
+	"C20": dial.C20,
 }
 
 // Find returns the runnable spec of a property.
